@@ -20,6 +20,12 @@ pub trait RunningApp {
     fn wait_returned(&mut self, timeout: Duration) -> Option<Instant>;
     /// instants at which the handler for request id started (handler-side log)
     fn handler_started(&self, id: &str) -> Option<Instant>;
+    /// when the application itself reported having accepted the connection from this client address (monitor event
+    /// `ConnectionSuccess`, emitted by the accept thread before the connection is handed to the pool); None if the
+    /// runtime offers no such observation
+    fn accepted_at(&self, _client: SocketAddr) -> Option<Instant> {
+        None
+    }
     fn runtime(&self) -> &'static str;
 }
 
@@ -84,6 +90,7 @@ struct Client {
     request_sent: bool,
     /// when the request had been written completely
     sent_at: Instant,
+    local: Option<SocketAddr>,
 }
 
 fn target_addr(a: SocketAddr) -> SocketAddr {
@@ -127,7 +134,7 @@ pub fn run_scenario(r: &mut Report, app: &mut dyn RunningApp, sc: &Scenario, sid
             let mut c = match Conn::open(addr) {
                 Ok(c) => c,
                 Err(_) => {
-                    clients.push(Client { state: st.clone(), id, conn: None, request_sent: false, sent_at: Instant::now() });
+                    clients.push(Client { state: st.clone(), id, conn: None, request_sent: false, sent_at: Instant::now(), local: None });
                     continue;
                 }
             };
@@ -153,7 +160,8 @@ pub fn run_scenario(r: &mut Report, app: &mut dyn RunningApp, sc: &Scenario, sid
                 }
             }
             r.count("connections_opened", 1);
-            clients.push(Client { state: st.clone(), id, conn: Some(c), request_sent: sent, sent_at: Instant::now() });
+            let local = c.s.local_addr().ok();
+            clients.push(Client { state: st.clone(), id, conn: Some(c), request_sent: sent, sent_at: Instant::now(), local });
         }
     };
     let t_signal;
@@ -271,10 +279,11 @@ pub fn run_scenario(r: &mut Report, app: &mut dyn RunningApp, sc: &Scenario, sid
                             } else {
                                 r.inconclusive(format!("in-flight response for {:?} not received within 15 s", c.state));
                             }
-                        } else if sc.when == When::AfterTrafficSettled && c.request_sent && conn.eof && t_signal.saturating_duration_since(c.sent_at) >= Duration::from_millis(100) {
-                            // not racing: the request had been sent (and the connection accepted and queued behind busy
-                            // workers) at least 100 ms before the signal; queued work is finished after shutdown, not discarded
-                            r.violation(&format!("C20/queued-request-dropped:{}", rt), format!("[{}] a {:?} request sent {} ms before the signal, waiting behind occupied workers (pool {}), was closed without a response", rt, c.state, t_signal.saturating_duration_since(c.sent_at).as_millis(), sc.pool), ex("queued request dropped"), replay.to_vec());
+                        } else if c.request_sent && conn.eof && c.local.and_then(|a| app.accepted_at(a)).map(|t| t < t_signal).unwrap_or(false) {
+                            // not racing: the application itself had reported the connection as accepted before the signal
+                            // (so it was handed to the pool and waited behind busy workers); queued work is finished after
+                            // shutdown, not discarded. A connection still in the kernel's backlog at the signal IS racing.
+                            r.violation(&format!("C20/queued-request-dropped:{}", rt), format!("[{}] a {:?} request on a connection the application had accepted before the signal (request sent {} ms before it), waiting behind occupied workers (pool {}), was closed without a response", rt, c.state, t_signal.saturating_duration_since(c.sent_at).as_millis(), sc.pool), ex("queued request dropped"), replay.to_vec());
                         } else {
                             r.count("racing_connections_got_nothing", 1);
                         }
